@@ -268,6 +268,12 @@ type simpleSel struct {
 	nthA int
 	nthB int
 	raw  string // unparsed functional argument
+	// namespace of a type/universal/attribute selector: nsMode 0 = none written,
+	// 1 = prefix "ns|", 2 = any "*|", 3 = no namespace "|"; nsURI is filled in by
+	// resolveNamespaces (nsMode 4 = resolved to "exactly nsURI", 5 = unknown prefix)
+	nsPrefix string
+	nsMode   int
+	nsURI    string
 }
 
 type compoundSel struct{ parts []simpleSel }
@@ -393,11 +399,46 @@ func closeIndex(t []tok, open int) int {
 	return len(t)
 }
 
+// is the compound at the cursor of the form [ident|*]? "|" (ident|*) ?
+func (p *selParser) nsAhead() bool {
+	j := p.i
+	if j < len(p.t) && (p.t[j].kind == tIdent || (p.t[j].kind == tDelim && p.t[j].text == "*")) {
+		j++
+	}
+	if !(j < len(p.t) && p.t[j].kind == tDelim && p.t[j].text == "|") {
+		return false
+	}
+	j++
+	return j < len(p.t) && (p.t[j].kind == tIdent || (p.t[j].kind == tDelim && p.t[j].text == "*"))
+}
+
 func (p *selParser) compound() (compoundSel, bool) {
 	var c compoundSel
 	for {
 		x := p.cur()
 		switch {
+		case (x.kind == tIdent || (x.kind == tDelim && (x.text == "*" || x.text == "|"))) && len(c.parts) == 0 && p.nsAhead():
+			// [ident | "*" | empty] "|" (ident | "*")
+			s := simpleSel{}
+			switch {
+			case x.kind == tIdent:
+				s.nsMode, s.nsPrefix = 1, x.text
+				p.i++
+			case x.text == "*":
+				s.nsMode = 2
+				p.i++
+			default:
+				s.nsMode = 3
+			}
+			p.i++ // the "|"
+			y := p.cur()
+			if y.kind == tIdent {
+				s.kind, s.name = "type", strings.ToLower(y.text)
+			} else {
+				s.kind = "universal"
+			}
+			p.i++
+			c.parts = append(c.parts, s)
 		case x.kind == tIdent:
 			if len(c.parts) > 0 {
 				return c, false
@@ -429,6 +470,21 @@ func (p *selParser) compound() (compoundSel, bool) {
 			p.i = end + 1
 			s := simpleSel{kind: "attr"}
 			k := 0
+			// optional namespace: ns|attr  *|attr  |attr   (but not the "|=" operator)
+			isBar := func(j int) bool {
+				return j < len(inner) && inner[j].kind == tDelim && inner[j].text == "|" && !(j+1 < len(inner) && inner[j+1].kind == tDelim && inner[j+1].text == "=")
+			}
+			switch {
+			case k < len(inner) && inner[k].kind == tIdent && isBar(k+1):
+				s.nsMode, s.nsPrefix = 1, inner[k].text
+				k += 2
+			case k < len(inner) && inner[k].kind == tDelim && inner[k].text == "*" && isBar(k+1):
+				s.nsMode = 2
+				k += 2
+			case isBar(k):
+				s.nsMode = 3
+				k++
+			}
 			if k < len(inner) && inner[k].kind == tIdent {
 				s.name = strings.ToLower(inner[k].text)
 				k++
